@@ -14,6 +14,7 @@ RULE = ("(A) the four free conversion functions on raw dicts (unsorted / repeate
         "compared with tolerance 1e-9*sum|coef|. Non-trivial = source with >= 2 terms and >= 2 variables; "
         "distinct = digest of (function, source type, source terms)"
         " Also: objects with an earlier life (clear() or *= 0, then refilled), long raw spellings of monomials (repeated boolean labels, inserted spin pairs), matrix_to_qubo on matrices in tiny units and nearly symmetric ones, every calling form of set_mapping, terms added after a user mapping, spin flag independent of the solution's form, second call after the caller edited the first result, labelled sources with a cancelled variable given to the conversion functions and the result used as a model of its own (mapping, exports, convert_solution), solutions longer than the model, boolean and small-integer matrices.")
+RULE += " Rounds 9-10: a top-degree term that comes and goes in place while a sibling of the same degree stays (export without deg), dict solutions in shuffled insertion order, accessor copies edited by the caller before the export."
 TIERS = {"quick": {"shards": 8, "cases": 6000}, "thorough": {"shards": 16, "cases": 50000}}
 FLOOR_BASE = {"quick": 500, "thorough": 20000}    # case counts the floors below were calibrated for; the launcher scales them
 FREE = {"pubo_to_puso": ("bool", False), "puso_to_pubo": ("spin", False),
